@@ -50,6 +50,9 @@ fn main() {
     // catch_unwind turn them into events.
     std::panic::set_hook(Box::new(|info| {
         *LAST_PANIC.lock().unwrap() = info.to_string();
+        if std::env::var("VERIF_PANIC_VERBOSE").is_ok() {
+            eprintln!("panic: {info}");
+        }
     }));
     init();
 
